@@ -12,8 +12,11 @@ from genlm.grammar.cfg import Rule  # noqa: F401
 from genlm.grammar.semiring import Expectation  # noqa: F401
 
 
+TMODE = {"mode": "str"}   # "int": terminals are the integers 0..nT-1 (0 is falsy, unlike any one-letter string)
+
+
 def tname(a):
-    return chr(ord("a") + a)
+    return a if TMODE["mode"] == "int" else chr(ord("a") + a)
 
 
 def ntname(x):
@@ -40,6 +43,14 @@ def wconv(sr):
         return Boolean, (lambda w: Boolean(bool(w) if isinstance(w, bool) else Fraction(w) > 0))
     if sr == "real":
         return Real, (lambda w: Real(Fraction(w)))
+    if sr == "maxplus":
+        from genlm.grammar.semiring import MaxPlus
+
+        return MaxPlus, (lambda w: MaxPlus(float(Fraction(w))))
+    if sr == "log":
+        from genlm.grammar.semiring import Log
+
+        return Log, (lambda w: Log(float(Fraction(w))))
     raise ValueError(sr)
 
 
@@ -61,6 +72,8 @@ def enc(v):
     if isinstance(v, Boolean):
         return bool(v.score)
     if isinstance(v, Real):
+        return enc(v.score)
+    if type(v).__name__ in ("MaxPlus", "Log", "MaxTimes"):
         return enc(v.score)
     if isinstance(v, Fraction):
         return f"{v.numerator}/{v.denominator}"
@@ -213,6 +226,8 @@ def run_query(cfg, g, sr, q):
         return [enc(cfg.prefix_weight(s2py(xs))) for xs in q["xs"]]
     if op == "derivative_call":
         d = cfg.derivative(tname(q["a"]))
+        for b in q.get("then", []):   # derivative of a derivative grammar, one call at a time
+            d = d.derivative(tname(b))
         return [enc(d(s2py(xs))) for xs in q["xs"]]
     if op == "derivatives_treesum":
         return [enc(cfg.derivatives(s2py(xs))[-1].treesum()) for xs in q["xs"]]
@@ -260,6 +275,7 @@ def main():
     out = []
     for job in req["jobs"]:
         res = []
+        TMODE["mode"] = job.get("tnames", "str")
         try:
             cfg = build(job["g"], job["sr"])
         except Exception as e:  # noqa
